@@ -43,6 +43,7 @@ func c07(c *Ctx) {
 	c07FullRead(c)
 	c07Replay(c)
 	c07Params(c)
+	c07MainKey(c)
 }
 
 func c07SegAuth(c *Ctx) {
